@@ -32,12 +32,12 @@ def sqlite_schema(conn, t):
                 break
     indexes, pk = {}, None
     for seq, name, unique, origin, partial in conn.execute("PRAGMA index_list(%s)" % t).fetchall():
-        keys = [(None if cid == -2 else ("rowid" if cid == -1 else cname), (coll or "").lower(), bool(desc))
+        keys = [(None if cid == -2 else ("rowid" if cid == -1 else cname), alow(coll or ""), bool(desc))
                 for _, cid, cname, desc, coll, key in conn.execute("PRAGMA index_xinfo(%s)" % name) if key]
-        indexes[name.lower()] = keys
+        indexes[alow(name)] = keys
         if origin == "pk":
-            pk = (name.lower(), keys)
-    return {"cols": [c.lower() for c in cols], "without": without, "alias": alias.lower() if alias else None, "indexes": indexes, "pk": pk}
+            pk = (alow(name), keys)
+    return {"cols": [alow(c) for c in cols], "without": without, "alias": alow(alias) if alias else None, "indexes": indexes, "pk": pk}
 
 
 def parse_dump(d):
@@ -56,6 +56,11 @@ def parse_dump(d):
             "indexes": {} if inds == "-" else {un(i.split("=")[0]): icols(i.split("=")[1]) for i in inds.split("/")}}
 
 
+def alow(s):
+    """SQLite folds the case of ASCII letters only"""
+    return "".join(ch.lower() if ch.isascii() else ch for ch in s)
+
+
 def compare(sq, sl):
     """None or a description of the first disagreement between SQLite's view and sqlittle's"""
     if sq["cols"] != sl["cols"]:
@@ -64,7 +69,7 @@ def compare(sq, sl):
         return "WITHOUT ROWID %s vs SQLite %s" % (sl["without"], sq["without"])
     if sq["alias"] != sl["alias"]:
         return "rowid alias column %s vs SQLite %s" % (sl["alias"], sq["alias"])
-    norm = lambda ks: [(n.lower() if n else None, c or "binary", d) for n, c, d in ks]
+    norm = lambda ks: [(alow(n) if n else None, c or "binary", d) for n, c, d in ks]
     if sq["without"]:
         want = norm(sq["pk"][1]) if sq["pk"] else []
         if norm(sl["pk"]) != want:
